@@ -12,8 +12,8 @@ LEVEL_TEXT = ("The closed-form effect of the fault-free structural calls (Spec.s
 LEVEL_NOTE = ("Trusted: Lean kernel, standard axioms; the mirror lean/Anytree/Model/Forest.lean; hooks do nothing in this "
               "property (fault-free calls). Non-node arguments to LightNodeMixin classes are outside the model (the "
               "property restricts the TreeError clause to NodeMixin-based classes)."
-              " Hooks that make structural calls of their own are outside the model (its hooks observe or raise); one class of them - a hook that detaches ANOTHER node while the call is in progress - is exercised in the correspondence run against the mirror run on the nested call followed by the outer one (driver field pre_ops); for a parent assignment this equivalence is proved of the extended mirror (Model/ForestR.lean, C02r.setParentR_eq_seq, inv_setParentR); for children assignment/deletion it is searched, not proved.")
-MODULES = ['Anytree.Props.C02', 'Anytree.Props.C02b', 'Anytree.Props.C02r']
+              " Hooks that make structural calls of their own are outside the model (its hooks observe or raise); one class of them - a hook that detaches ANOTHER node while the call is in progress - is exercised in the correspondence run against the mirror run on the nested call followed by the outer one (driver field pre_ops); for a parent assignment this equivalence is proved of the extended mirror (Model/ForestR.lean, C02r.setParentR_eq_seq, inv_setParentR); for the children deleter as well (C02s.delChildrenR_eq_seq, inv_delChildrenR); for the attach phase of a children assignment it is searched, not proved.")
+MODULES = ['Anytree.Props.C02', 'Anytree.Props.C02b', 'Anytree.Props.C02r', 'Anytree.Props.C02s']
 THEOREMS = [
     ("Anytree.Props.C02.setParent_eq_spec", "full"),
     ("Anytree.Props.C02.delChildren_eq_spec", "full"),
@@ -44,6 +44,9 @@ THEOREMS = [
     ("Anytree.Props.C02r.setParentR_eq_seq", "full"),
     ("Anytree.Props.C02r.setParentR_forest", "full"),
     ("Anytree.Props.C02r.setParentR_noop", "full"),
+    ("Anytree.Props.C02s.delChildrenR_eq_seq", "full"),
+    ("Anytree.Props.C02s.delChildrenR_sibling", "full"),
+    ("Anytree.Props.C02s.delChildrenR_forest", "full"),
 ]
 NOT_COVERED = ['where the specification refuses a children assignment with LoopError the theorems claim the result class only: the links the code leaves behind are proved to be Spec.restored (setChildren_loopError_state), which differs from the pre-state exactly in finding K3']
 PREDICATE_SPEC = True
